@@ -386,8 +386,14 @@ func (p ShortestAlts) To(vid int64) (path []graph.Node, weight float64, unique b
 			} else {
 				next = c[0]
 			}
-			if seen[next] >= 0 {
-				path = path[:seen[next]]
+			if i := seen[next]; i >= 0 {
+				// Forget the nodes of the removed cycle so that
+				// stale positions are not used if they are
+				// visited again.
+				for _, n := range path[i:] {
+					seen[p.indexOf[n.ID()]] = -1
+				}
+				path = path[:i]
 			}
 			seen[next] = len(path)
 			path = append(path, p.nodes[next])
@@ -663,8 +669,14 @@ func (p AllShortest) Between(uid, vid int64) (path []graph.Node, weight float64,
 		} else {
 			next = c[0]
 		}
-		if seen[next] >= 0 {
-			path = path[:seen[next]]
+		if i := seen[next]; i >= 0 {
+			// Forget the nodes of the removed cycle so that
+			// stale positions are not used if they are
+			// visited again.
+			for _, n := range path[i:] {
+				seen[p.indexOf[n.ID()]] = -1
+			}
+			path = path[:i]
 		}
 		seen[next] = len(path)
 		path = append(path, p.nodes[next])
